@@ -1240,7 +1240,7 @@ def check_C20(tier, seed, replay):
         raise ToolError("vacuity: TLC no longer refutes the per-thread / shared cache designs")
     # 2. the real code: concurrent parses against a sequential run
     nthreads, rounds = (8, 4) if tier == "quick" else (16, 40)
-    fams = ["memo", "lr", "ops"]
+    fams = ["memo", "lr", "ops", "ws"]
     runs, cov = machine_runs("C20", fams, tier, seed, replay)
     total = 0
     thread_cases = []
@@ -1268,6 +1268,29 @@ def check_C20(tier, seed, replay):
             res.add(Violation("C20", "SessionPure", "thread %d got a different outcome than the sequential run: %s vs %s" % (
                 m["thread"], json.dumps(m["par"].get("res"))[:200], json.dumps(m["seq"].get("res"))[:200]), c,
                 {"name": r.fam, "thread": m["thread"]}))
+        # stress phase: only the inputs beyond the model-checking bound (long whitespace runs, long memo inputs),
+        # many rounds, so that threads are inside the same runtime helpers at the same time
+        hot = [l_ for l_ in lines_cases if len(l_.split("\t")[1]) >= 16]
+        if hot:
+            hf = os.path.join(vlib.famdir(name, r.tier), "stress.tsv")
+            with open(hf, "w") as f:
+                f.write("\n".join(hot) + "\n")
+            ho = os.path.join(vlib.famdir(name, r.tier), "stress.jsonl")
+            hr = max(50, (60000 if tier == "quick" else 600000) // len(hot))
+            p2 = subprocess.run([binp, hf, ho, "0", "--threads", str(nthreads), "--rounds", str(hr)],
+                                stdout=subprocess.PIPE, stderr=subprocess.PIPE, text=True, timeout=3600)
+            if p2.returncode != 0:
+                res.add(Violation("C20", "SessionPure", "the concurrent stress run of family %s died (rc=%s): %s" % (
+                    r.fam, p2.returncode, p2.stderr[-300:]), None, {"name": r.fam, "site": "crash"}))
+            else:
+                hs = json.loads(open(ho).readline())
+                total += hs["parses"]
+                for m in hs["mismatches"]:
+                    gid, hx = hot[m["case"]].split("\t")
+                    c = key_to_case.get((gid, tuple(ord(x) for x in bytes.fromhex(hx).decode("utf-8"))))
+                    res.add(Violation("C20", "SessionPure", "thread %d got a different outcome than the sequential run (stress phase): %s vs %s" % (
+                        m["thread"], json.dumps(m["par"].get("res"))[:200], json.dumps(m["seq"].get("res"))[:200]), c,
+                        {"name": r.fam, "thread": m["thread"]}))
         # per-thread traces of the first round, in the thread's own order
         for l in lines[1:]:
             o = json.loads(l)
